@@ -1461,6 +1461,24 @@ def repo_inputs(maxsize=5000):
     return out
 
 
+def w0_regress(X):
+    """witness documents of repaired pipeline defects (corpus/regress): every algorithm, every output, both angular units"""
+    ck, F = X.ck, X.F
+    d = os.path.join(CORPUS, "regress")
+    jobs = []
+    for fn in sorted(os.listdir(d)) if os.path.isdir(d) else []:
+        with open(os.path.join(d, fn), "rb") as f:
+            doc = f.read()
+        for alg in ALGS:
+            for ang in ("400", "360"):
+                jobs.append((fn, doc, ["@@", "--algorithm", alg, "--angular", ang, "--text", "@text", "--xml", "@xml", "--html", "@html",
+                                       "--svg", "@svg", "--octave", "@octave", "--export", "@export"]))
+    ck.count("w0 regression witnesses", len(jobs) // 8)
+    for (fn, doc, args), g in runner.pmap(lambda j: (j, X.gl.run(j[1], j[2])), jobs):
+        c = judge_gl(ck, F, X.gl, doc, g, "w0 regress " + fn, meta=dict(file=fn))
+        ck.case(("w0", fn, c.split(":")[0]))
+
+
 def w1_valid(X):
     """grammar-derived valid documents => accepted by the parser, adjusted by gama-local, finite outputs"""
     ck, F = X.ck, X.F
@@ -2355,7 +2373,7 @@ def w9_memcheck(X, build_thread):
 
 # ------------------------------------------------------------------------------------------------------------
 
-WORKLOADS = ("w1", "w2", "w3", "w4", "w5", "w6", "w7", "w8", "w9")
+WORKLOADS = ("w0", "w1", "w2", "w3", "w4", "w5", "w6", "w7", "w8", "w9")
 
 
 def run(tier, seed):
@@ -2365,7 +2383,8 @@ def run(tier, seed):
     fz = BuildThread("fuzz", [t for t, _, _, _ in FUZZ]) if want("w8") else None
     pl = BuildThread("plain", ["parsedrv", "gama-local"]) if (tier == "thorough" and want("w9")) else None
     ck = Check("C11", tier, seed,
-               "san build (gcc ASan+UBSan, alloc_dealloc_mismatch on): (1) grammar-derived valid documents; (2) all tag-event "
+               "san build (gcc ASan+UBSan, alloc_dealloc_mismatch on): (0) witness documents of repaired pipeline defects x 4 "
+               "algorithms x 2 angular units x all outputs; (1) grammar-derived valid documents; (2) all tag-event "
                "sequences up to length 4 + pruned continuation, against the XSD content model; (3) truncation at every byte, byte "
                "flips, token/element mutations of valid files, everything accepted run through gama-local; (4) all short literal "
                "strings in every numeric slot; (5) every two-chunk split / 1-byte / line chunking vs one-shot; (6) random command "
@@ -2373,7 +2392,7 @@ def run(tier, seed):
                "(clang) corpus replay + bounded runs, artifacts re-judged on the san binaries; thorough: (9) valgrind memcheck "
                "sample.  class = (workload, feature / mutation kind / slot, outcome)")
     X = Ctx(ck, tier, seed)
-    steps = (("w1", w1_valid), ("w2", w2_sequences), ("w3", w3_mutations), ("w4", w4_literals), ("w5", w5_chunked),
+    steps = (("w0", w0_regress), ("w1", w1_valid), ("w2", w2_sequences), ("w3", w3_mutations), ("w4", w4_literals), ("w5", w5_chunked),
              ("w6", w6_options), ("w7", w7_other_parsers))
     for name, fn in steps:
         if want(name):
